@@ -137,9 +137,13 @@ ClustEquivariant ==
 (* ---- KCore: the maximal subset is renamed -------------------------------------------- *)
 CoreKind(m) == CASE m = "und" -> "bu" [] m = "dir" -> "bd" [] OTHER -> "wu"
 CoreTop(m) == CASE m = "und" -> 2 * (n - 1) [] m = "dir" -> 4 * (n - 1) [] OTHER -> 2 * WMax * (n - 1)
+(* bounds are passed doubled (b2 = 2k); degrees are integers, so for the binary kinds     *)
+(* only even b2 are distinct bounds; strengths (wu) also meet half-integer s                *)
+CoreBounds(m) == IF m = "wund" THEN 0..(CoreTop(m) + 1)
+                 ELSE {b2 \in 0..(CoreTop(m) + 2) : b2 % 2 = 0}
 CoreEquivariant ==
   At({"und", "dir", "wund"}) =>
-     \A b2 \in 0..(CoreTop(mode) + 1) :
+     \A b2 \in CoreBounds(mode) :
         /\ KC!CoreSet(n, PA, b2, CoreKind(mode)) = RenameSet(n, KC!CoreSet(n, A, b2, CoreKind(mode)), p)
         /\ KC!PeelCoreSet(n, PA, b2, CoreKind(mode))
               = RenameSet(n, KC!PeelCoreSet(n, A, b2, CoreKind(mode)), p)
